@@ -6,7 +6,7 @@ W=/var/tmp/hwr/$k
 rm -rf "$W"; mkdir -p "$W"
 cp -a /repo "$W/repo"; cp -a /verif "$W/verif"
 git -C "$W/repo" checkout -q -- . 
-rsync -a --exclude __pycache__ /var/tmp/hw/harness/ "$W/verif/harness/"
+rsync -a --exclude __pycache__ /var/tmp/hw/harness/ "$W/verif/harness/"; [ -d /var/tmp/hw/rust_harness ] && rsync -a /var/tmp/hw/rust_harness/ "$W/verif/rust_harness/"
 if [ "$seed" != "-" ]; then git -C "$W/repo" apply /verif/seeded/$seed/patch.diff || { echo "patch failed"; exit 2; }; fi
 export SEDPACK_VERIF_RUSTCACHE="$W/rustcache"
 unshare -m bash -c "mount --bind $W/repo /repo && mount --bind $W/verif /verif && cd /verif && for p in $*; do ./check \$p $tier > $W/\$p.log 2>&1; echo \"\$p rc=\$? \$(grep -h '^VIOLATION\|^KNOWN' $W/\$p.log | head -3 | tr '\n' ' ')\"; done" 
